@@ -1,0 +1,13 @@
+//go:build !verif
+
+// Package verifhook holds the observation points used by the external verification harness.
+// Without the build tag `verif` every function is an identity / no-op.
+package verifhook
+
+import (
+	sdk "github.com/cosmos/cosmos-sdk/types"
+	corevm "github.com/ethereum/go-ethereum/core/vm"
+)
+
+// WrapTracer returns the tracer unchanged.
+func WrapTracer(_ sdk.Context, tracer corevm.EVMLogger) corevm.EVMLogger { return tracer }
